@@ -68,7 +68,11 @@ Inductive value :=
 | VBad (why : string).
 
 Definition effect := (string * list value)%type.
-Record st := mkSt { env : list (string * value); eff : list effect; defers : list (list gstmt) (* newest first *) }.
+Record st := mkSt {
+  env : list (string * value); eff : list effect;
+  defers : list (list gstmt);   (* deferred closures, newest first *)
+  gos : list (list gstmt);      (* bodies of `go func() { ... }()`, oldest first: they run after the function has returned *)
+}.
 
 Inductive outcome :=
 | Ret (vs : list value) (s : st)
@@ -81,10 +85,12 @@ Fixpoint lookup (x : string) (e : list (string * value)) : option value :=
   | (y, v) :: r => if String.eqb x y then Some v else lookup x r
   end.
 
-Definition bind (x : string) (v : value) (s : st) : st := mkSt ((x, v) :: env s) (eff s) (defers s).
-Definition emit (f : string) (args : list value) (s : st) : st := mkSt (env s) (eff s ++ [(f, args)]) (defers s).
-Definition push_defer (b : list gstmt) (s : st) : st := mkSt (env s) (eff s) (b :: defers s).
-Definition clear_defers (s : st) : st := mkSt (env s) (eff s) [].
+Definition bind (x : string) (v : value) (s : st) : st := mkSt ((x, v) :: env s) (eff s) (defers s) (gos s).
+Definition emit (f : string) (args : list value) (s : st) : st := mkSt (env s) (eff s ++ [(f, args)]) (defers s) (gos s).
+Definition push_defer (b : list gstmt) (s : st) : st := mkSt (env s) (eff s) (b :: defers s) (gos s).
+Definition clear_defers (s : st) : st := mkSt (env s) (eff s) [] (gos s).
+Definition push_go (b : list gstmt) (s : st) : st := mkSt (env s) (eff s) (defers s) (gos s ++ [b]).
+Definition clear_gos (s : st) : st := mkSt (env s) (eff s) (defers s) [].
 
 Definition prims := string -> list value -> st -> option (value * st).
 
@@ -122,6 +128,8 @@ Section Interp.
     | "!=", VPtr n _, VNil => VB n
     | "==", VNil, VNil => VB true
     | "!=", VNil, VNil => VB false
+    | "==", VRec _ _, VNil => VB false      (* a boxed value is not nil *)
+    | "!=", VRec _ _, VNil => VB true
     | _, VF x, VF y =>
         if String.eqb op "+" || String.eqb op "-" || String.eqb op "*" || String.eqb op "/"
         then VF (FBin op x y) else VB (fcmp op x y)
@@ -260,7 +268,19 @@ Section Interp.
           eval_list fuel' es s (fun vs s1 =>
             (fix rund (ds : list (list gstmt)) (s : st) {struct ds} : R :=
                match ds with
-               | [] => kret (spread 0 vs) s
+               | [] =>
+                   (* the function has returned: the goroutines it started run now (the return is recorded first) *)
+                   (fix rung (gs : list (list gstmt)) (s : st) {struct gs} : R :=
+                      match gs with
+                      | [] => kret (spread 0 vs) s
+                      | g :: r =>
+                          exec_list g s (fun s' =>
+                            (fix rund2 (ds : list (list gstmt)) (s : st) {struct ds} : R :=
+                               match ds with
+                               | [] => rung r s
+                               | d :: r2 => exec_list d s (fun s'' => rund2 r2 s'')
+                               end) (defers s') (clear_defers s'))
+                      end) (gos s) (clear_gos (match gos s with [] => s | _ => emit "return" (spread 0 vs) s end))
                | d :: r => exec_list d s (fun s' => rund r s')
                end) (defers s1) (clear_defers s1))
       | GBlock l => exec_list l s k
@@ -275,6 +295,7 @@ Section Interp.
           | GCall f _ => k (emit ("defer " ++ f) [] s)                 (* defer x.Unlock(): recorded where it is registered *)
           | _ => kbad "defer"
           end
+      | GGo (GCall "$closure" [GFunc body]) => k (push_go body s)
       | GGo _ => k (emit "go" [] s)
       | GOtherS x => kbad ("untranslated statement " ++ x)
       end
@@ -294,7 +315,7 @@ Section Interp.
 
   (* run a function on arguments, with [leaves] binding the selector paths it reads *)
   Definition run (f : gfunc) (args : list value) (leaves : list (string * value)) (kfall : st -> R) : R :=
-    exec_list 60 (gf_body f) (mkSt (zip_params (gf_params f) args ++ leaves) [] [])
+    exec_list 60 (gf_body f) (mkSt (zip_params (gf_params f) args ++ leaves) [] [] [])
               (fun s => (fix rund (ds : list (list gstmt)) (s : st) {struct ds} : R :=
                            match ds with
                            | [] => kfall s
